@@ -100,6 +100,13 @@ var funcs = []struct {
 		}
 		return s + "@" + sc.Method.Name(), nil
 	}},
+	{"CtxAny", func(ctx context.Context, n int, a interface{}, s string) (string, interface{}, int) {
+		return s, a, n
+	}},
+	{"CtxVariadicAny", func(ctx context.Context, s string, xs ...interface{}) ([]interface{}, string) {
+		return xs, s
+	}},
+	{"IntThenAny", func(n int, a interface{}, b interface{}) (interface{}, interface{}, int) { return b, a, n }},
 	{"Struct", func(a gentypes.Scalars) gentypes.Scalars { return a }},
 	{"StructPtr", func(t *gentypes.Tree) *gentypes.Tree { return t }},
 	{"Maps", func(m map[string]int, n map[int]string) (map[int]string, map[string]int) { return n, m }},
@@ -337,6 +344,7 @@ func TestCheck(t *testing.T) {
 		}
 		r.Case(fmt.Sprintf("missing/%s", g), func(c *h.Case) { missingCase(c, g) })
 		r.Case(fmt.Sprintf("concurrent/%s", g), func(c *h.Case) { concurrentCase(c, g) })
+		r.Case(fmt.Sprintf("nested-proxy/%s", g), func(c *h.Case) { nestedProxyCase(c, g) })
 	}
 }
 
@@ -377,7 +385,7 @@ func callLocal(fn interface{}, args []reflect.Value) (out []reflect.Value, err e
 	ft := pure.Type()
 	in := args
 	if ft.NumIn() > 0 && ft.In(0) == tCtx {
-		return nil, nil, nil // handled by the caller
+		in = append([]reflect.Value{reflect.ValueOf(context.Background())}, args...)
 	}
 	defer func() {
 		if p := recover(); p != nil {
@@ -420,6 +428,9 @@ func genArgs(g *gen.Gen, rng *rand.Rand, ft reflect.Type, round int) []reflect.V
 }
 
 func pick(g *gen.Gen, rng *rand.Rand, t reflect.Type, round int) reflect.Value {
+	if t.Kind() == reflect.Interface && round%4 == 1 {
+		return reflect.Zero(t) // a nil interface value
+	}
 	if round%3 == 0 {
 		if bs := g.Bounds(t); len(bs) > 0 {
 			return bs[rng.Intn(len(bs))]
@@ -905,4 +916,97 @@ func concurrentCase(c *h.Case, g group) {
 		}
 	}
 	r.Distinct(fmt.Sprintf("%s|concurrent", g))
+}
+
+// ---- proxies with nested and embedded parts ----
+
+type adderPart struct {
+	Sum func(xs ...int) (int, error)
+}
+
+type namedPart struct {
+	Sum  func(xs ...int) (int, error)
+	Deep struct {
+		adderPart
+		Sum2 func(a, b int) (int, error) `name:"sum"`
+	}
+}
+
+type nestedProxy struct {
+	adderPart          // embedded at the top: Sum
+	Group     struct { // embedded inside a named part: Group_Sum
+		adderPart
+	}
+	Plain  namedPart  // Plain_Sum, Plain_Deep_Sum, Plain_Deep_sum
+	Ptr    *namedPart // Ptr_Sum ...
+	Tagged struct {
+		Total func(xs ...int) (int, error) `name:"Sum"`
+	}
+}
+
+// nestedProxyCase: every function of a proxy with nested, embedded and pointer parts must be
+// bound to the name its position spells (parts joined with '_'), each published as a
+// different function.
+func nestedProxyCase(c *h.Case, g group) {
+	r := c.R
+	svc := core.NewService()
+	svc.Codec = core.NewServiceCodec(core.WithSimple(g.simple))
+	bases := map[string]int{"Sum": 0, "Group_Sum": 1000, "Plain_Sum": 2000, "Plain_Deep_Sum": 3000, "Ptr_Sum": 4000, "Ptr_Deep_Sum": 5000, "Tagged_Sum": 6000}
+	for name, base := range bases {
+		base := base
+		svc.AddFunction(func(xs ...int) int {
+			t := base
+			for _, x := range xs {
+				t += x
+			}
+			return t
+		}, name)
+	}
+	srv, err := peer.Start(g.kind, svc)
+	if err != nil {
+		r.Inconclusive(err.Error())
+		return
+	}
+	defer srv.Close()
+	client := srv.NewClient()
+	client.Codec = core.NewClientCodec(core.WithSimple(g.simple))
+	defer client.Abort()
+	var proxy nestedProxy
+	var pv interface{}
+	var st string
+	pv, st = h.Try(func() { client.UseService(&proxy) })
+	if pv != nil {
+		c.Violation("client-panic:UseService-nested:"+h.PanicClass(fmt.Sprint(pv)), fmt.Sprintf("%v\n%s", pv, h.TrimStack(st)), nil)
+		return
+	}
+	type probe struct {
+		path string
+		f    func(xs ...int) (int, error)
+		base int
+	}
+	probes := []probe{
+		{"Sum (embedded at the top)", proxy.Sum, 0},
+		{"Group.Sum (embedded inside a named part)", proxy.Group.Sum, 1000},
+		{"Plain.Sum", proxy.Plain.Sum, 2000},
+		{"Plain.Deep.Sum (embedded two levels down)", proxy.Plain.Deep.Sum, 3000},
+		{"Tagged.Total (a name tag spells the whole remote name: Sum)", proxy.Tagged.Total, 0},
+	}
+	if proxy.Ptr != nil {
+		probes = append(probes, probe{"Ptr.Sum (pointer part)", proxy.Ptr.Sum, 4000}, probe{"Ptr.Deep.Sum", proxy.Ptr.Deep.Sum, 5000})
+	}
+	for _, p := range probes {
+		r.Eval(1)
+		if p.f == nil {
+			c.Violation("proxy-function-not-built", p.path+" is nil after UseService", map[string]interface{}{"group": g.String()})
+			continue
+		}
+		got, err := p.f(1, 2, 3)
+		if err != nil || got != p.base+6 {
+			c.Violation("nested-proxy-bound-to-another-function", fmt.Sprintf("%s(1,2,3) = %d, %v; the function published under that name returns %d", p.path, got, err, p.base+6), map[string]interface{}{"group": g.String(), "path": p.path})
+		}
+		r.Distinct(fmt.Sprintf("%s|nested|%s", g, p.path))
+	}
+	if got, err := proxy.Plain.Deep.Sum2(4, 5); err != nil || got != 9 {
+		c.Violation("nested-proxy-bound-to-another-function", fmt.Sprintf("Plain.Deep.Sum2 (name tag sum, the whole remote name) (4,5) = %d, %v; want 9", got, err), map[string]interface{}{"group": g.String()})
+	}
 }
